@@ -57,7 +57,7 @@ PROPS = {
                        '(wrapping arithmetic in the contracts); refusal <=> no buffers or capacity, with *self unchanged',
     },
     'C04': {
-        'level': 'proof', 'units': ['queue'],
+        'level': 'proof', 'units': ['queue', 'net'],
         'kani_quick': ['k_life_indirect'],
         'kani_thorough': ['k_life_direct', 'k_two_direct', 'k_two_indirect'],
         'kani_bounds': {'k_life_*': 'bounded stand-in: SIZE=4, one chain; HAL call ledger with bouncing addresses'},
@@ -78,7 +78,10 @@ PROPS = {
     },
     'C05': {
         'level': 'proof',
-        'units': ['queue'],
+        'units': ['queue', 'blk', 'console', 'net', 'input', 'owning'],
+        # the queue flags (event_idx / indirect) are the negotiated ones: clause ring_ok of every constructor (C08 units)
+        'dep_units': [{'unit': u, 'props': ['C08']} for u in ('init_rng', 'init_rtc', 'init_9p', 'init_blk', 'init_gpu', 'init_vsock',
+                                                               'init_console', 'init_sound', 'init_net', 'init_input')],
         'kani_quick': ['c05_should_notify_full_domain', 'c05_set_dev_notify'],
         'kani_thorough': ['k_life_direct_anyidx'],
         'kani_bounds': {'c05_should_notify_full_domain': 'loop-free after construction (SIZE=4): complete over '
